@@ -42,6 +42,11 @@ StopWindowOf(f, o0) == /\ f.v = 0 /\ f.vc = 0
                        /\ f["end"] - FT1000 <= f.o
                        /\ f.o <= Max2(f["end"], o0)
 
-(* a call of the library ends Ok or with a descriptive error *)
+(* a call of the library ends Ok or with a descriptive error: an error has a text, and it is not   *)
+(* one of the solver's own consistency checks (`ensure!` on the power / force bounds it has just   *)
+(* computed, speed_limit_train_sim.rs:461-464, :608-617, :625-643): those are assertions turned     *)
+(* into Err — the same failure as a panic for the caller — not a description of the input. The      *)
+(* harness classifies the text (cls = "internal" | "descriptive", see errcls_txt).                  *)
 EndOkOf(e) == e.ok \/ e.msg # ""
+NoInternalErrOf(e) == e.ok \/ e.cls # "internal"
 =============================================================================
